@@ -7,6 +7,8 @@ package trzsz
 
 import (
 	"bytes"
+	"fmt"
+	"io"
 	"sync"
 	"time"
 )
@@ -146,4 +148,79 @@ func (s *VerifSession) PromptContinue() bool {
 		time.Sleep(200 * time.Microsecond)
 	}
 	return s.f.promptPipe.Load() == nil
+}
+
+// ---- the callbacks a real multi-file transfer produces, in the order it produces them ----
+
+// verifCallbackProgress is a progressCallback that hands every call, one at a time, to a function.
+type verifCallbackProgress struct {
+	mu sync.Mutex
+	f  func(kind string, num int64, name string)
+}
+
+func (c *verifCallbackProgress) call(kind string, num int64, name string) {
+	c.mu.Lock()
+	defer c.mu.Unlock()
+	c.f(kind, num, name)
+}
+func (c *verifCallbackProgress) onNum(num int64)     { c.call("N", num, "") }
+func (c *verifCallbackProgress) onName(name string)  { c.call("M", 0, name) }
+func (c *verifCallbackProgress) onSize(size int64)   { c.call("Z", size, "") }
+func (c *verifCallbackProgress) onStep(step int64)   { c.call("S", step, "") }
+func (c *verifCallbackProgress) onDone()             { c.call("D", 0, "") }
+func (c *verifCallbackProgress) setPreSize(sz int64) { c.call("P", sz, "") }
+func (c *verifCallbackProgress) setPause(pausing bool) {
+	if pausing {
+		c.call("U", 1, "")
+	} else {
+		c.call("U", 0, "")
+	}
+}
+
+// VerifRunFilesPair transfers the files at paths into dest with the REAL sendFiles / recvFiles of
+// two transfers wired back to back (overwrite mode: a file already at the destination is
+// continued after its matching prefix).  Every progress callback of the sending side (or of the
+// receiving side) is handed to onCall, synchronously and one at a time, in the order the
+// transfer makes them: kind N onNum, M onName, Z onSize, S onStep, D onDone, P setPreSize.
+func VerifRunFilesPair(paths []string, dest string, protocol int, callbackOnSender bool,
+	onCall func(kind string, num int64, name string)) (errText string) {
+	defer verifRecover(&errText)
+	files, err := checkPathsReadable(paths, false)
+	if err != nil {
+		return "paths: " + err.Error()
+	}
+	s2rR, s2rW := io.Pipe()
+	r2sR, r2sW := io.Pipe()
+	defer s2rW.Close()
+	defer r2sW.Close()
+	sender := newTransfer(s2rW, nil, false, nil)
+	receiver := newTransfer(r2sW, nil, false, nil)
+	wrapTransferInput(sender, r2sR, false)
+	wrapTransferInput(receiver, s2rR, false)
+	for _, x := range []*trzszTransfer{sender, receiver} {
+		x.transferConfig.Protocol = protocol
+		x.transferConfig.Overwrite = true
+		x.transferConfig.Timeout = 10
+	}
+	var sendProgress, recvProgress progressCallback
+	cb := &verifCallbackProgress{f: onCall}
+	if callbackOnSender {
+		sendProgress = cb
+	} else {
+		recvProgress = cb
+	}
+	errs := make(chan error, 2)
+	go func() { _, err := receiver.recvFiles(dest, recvProgress); errs <- err }()
+	go func() { _, err := sender.sendFiles(files, sendProgress); errs <- err }()
+	for i := 0; i < 2; i++ {
+		select {
+		case err := <-errs:
+			if err != nil {
+				return fmt.Sprintf("transfer: %v", err)
+			}
+		case <-time.After(30 * time.Second):
+			return "transfer: did not finish"
+		}
+	}
+	return ""
 }
